@@ -75,6 +75,8 @@ type Sim struct {
 	live     map[string]int
 	ExitAt   map[string]time.Duration // when a named goroutine finished (simulated time)
 	StartAt  map[string]time.Duration
+	ExitStep  map[string]int
+	StartStep map[string]int
 	anon     int
 
 	hash    uint64
@@ -105,6 +107,8 @@ func New(seed uint64, tape *Tape) *Sim {
 		live:     map[string]int{},
 		ExitAt:   map[string]time.Duration{},
 		StartAt:  map[string]time.Duration{},
+		ExitStep:  map[string]int{},
+		StartStep: map[string]int{},
 		Stats:    map[string]int{},
 		MaxSteps: 20000,
 		MaxTime:  10 * time.Minute,
@@ -171,6 +175,18 @@ func (s *Sim) Tracef(format string, a ...any) {
 	}
 	s.mu.Unlock()
 	raceOn()
+}
+
+// StepNow returns the global event sequence number (scheduler step).
+//
+//go:norace
+func (s *Sim) StepNow() int {
+	raceOff()
+	s.mu.Lock()
+	n := s.Steps
+	s.mu.Unlock()
+	raceOn()
+	return n
 }
 
 func (s *Sim) Hash() string {
@@ -265,6 +281,7 @@ func (s *Sim) run(name string, f func()) {
 	s.mu.Lock()
 	s.names[id] = name
 	s.StartAt[name] = time.Since(s.Start)
+	s.StartStep[name] = s.Steps
 	s.mu.Unlock()
 	raceOn()
 	defer func() {
@@ -272,6 +289,7 @@ func (s *Sim) run(name string, f func()) {
 		s.mu.Lock()
 		delete(s.names, id)
 		s.ExitAt[name] = time.Since(s.Start)
+		s.ExitStep[name] = s.Steps
 		s.live[name]--
 		if s.live[name] == 0 {
 			delete(s.live, name)
@@ -407,6 +425,9 @@ func (s *Sim) Unlock() { s.mu.Unlock(); raceOn() }
 
 // AtLocked is At for callers holding the lock.
 func (s *Sim) AtLocked(d time.Duration, label string, fn func()) { s.atLocked(d, label, fn) }
+
+// StepLocked returns the step counter; caller holds the lock.
+func (s *Sim) StepLocked() int { return s.Steps }
 
 // TraceLocked records an event; caller holds the lock.
 func (s *Sim) TraceLocked(str string) { s.trace(str) }
